@@ -73,8 +73,8 @@ def check_rotvec(v, py):
     f(v, m)
     n = float(np.linalg.norm(v))
     want = expmap_closed(v)
-    # every entry to 500 eps absolutely (observed worst 4 eps; (the code's (1 - cos n)/n^2 just above the threshold cancels
-    # ~10 digits of k2, an absolute effect of <= 1e-16 on the entries)) ...
+    # every entry to 500 eps absolutely (observed worst: 4 eps; just above the threshold the code's
+    # (1 - cos n)/n^2 loses ~10 digits of k2, an absolute effect of <= 1e-16 on the entries) ...
     err = np.abs(m - want)
     if (err > 5 * TOL).any():
         i, j = np.unravel_index(np.argmax(err), (3, 3))
@@ -264,6 +264,37 @@ def numeric_statements(r, n):
     return fails
 
 
+OWN_MODULES = ['Props.C17', 'Proofs.C17Proofs', 'Spec.LibSpecsFacts', 'Spec.LibSpecs', 'Gen.C17Gen',
+               'Gen.Transform', 'Gen.NumbaIntegrate', 'Base.RealTac']
+
+
+def coqchk_own(r):
+    """Re-check the compiled modules of this property with the independent checker.  `-norec`: the
+    libraries below them (Reals, Coquelicot, Interval) are loaded but not re-checked -- the recursive
+    run (r.coqchk) needs > 40 min for Interval alone.  The axioms are those of Print Assumptions."""
+    import re
+    import common
+    cmd = ['timeout', '900', 'coqchk', '-silent', '-o', '-Q', '.', 'PV']
+    for m in OWN_MODULES:
+        cmd += ['-norec', 'PV.' + m]
+    r.checker_cmds.append(f"cd {common.COQ} && " + ' '.join(cmd[2:]))
+    rc, out = common.sh(cmd, 930, cwd=common.COQ)
+    if rc != 0:
+        r.broken('coqchk', 'PV.Props.C17 (-norec)', out[-2000:])
+        return False
+    bad = []
+    for kind in ('type-in-type', 'unsafe (co)fixpoints', 'positivity is assumed'):
+        mm = re.search(re.escape(kind) + r':\s*(\S+)', out)
+        if not mm or mm.group(1) != '<none>':
+            bad.append(kind)
+    r.coverage['coqchk'] = dict(modules=OWN_MODULES, mode='-norec', ok=not bad)
+    if bad:
+        r.broken('coqchk', 'PV.Props.C17 (-norec)', f"unexpected: {bad}")
+        return False
+    r.log(f"coqchk: {len(OWN_MODULES)} modules re-checked (-norec)")
+    return True
+
+
 def check(r):
     r.trusted += [
         "translator tools/sym.py + tools/ir2coq.py (symbolic tracing of _numba_integrate.mat_from_rotvec.py_func, "
@@ -284,15 +315,14 @@ def check(r):
     ]
     r.generate(['NumbaIntegrate', 'Transform', 'C17Gen'])
     r.prove('Props/C17.v')
-    n = 150 if r.tier == 'quick' else 6000
+    n = 150 if r.tier == 'quick' else 30000
     fails = numeric_statements(r, n)
     r.coverage['numeric_support'] = dict(cases_per_kind=n, failures=len(fails))
     for what, rep in fails[:5]:
         r.violation(what, rep)
     if r.tier == 'thorough':
         r.hygiene()
-        if hasattr(r, 'coqchk'):
-            r.coqchk('Props/C17.v')
+        coqchk_own(r)
 
 
 def falsify(r):
